@@ -65,6 +65,9 @@ func propC12(t *rapid.T) {
 		lw := irsem.GenWidth(t, cfg, "lw")
 		e = expr.NewMemLoad(irsem.MemKeys[0], expr.NewBinary(expr.Add, e, expr.Zero, aw), lw)
 	}
+	if rapid.IntRange(0, 7).Draw(t, "bareConst") == 0 {
+		e = irsem.GenConst(t, irsem.GenWidth(t, cfg, "cw"), "bare")
+	}
 	before := irsem.String(e)
 	seeds := []uint64{drawEnvSeed(t, "env1"), drawEnvSeed(t, "env2")}
 
@@ -83,6 +86,37 @@ func propC12(t *rapid.T) {
 		if got := irsem.Eval(sw, env); got.Cmp(want) != 0 {
 			t.Fatalf("SetWidth(%s, %d) = %s evaluates to %x, want %x (env seed %d)", before, w, irsem.String(sw), got, want, s)
 		}
+	}
+
+	// Re-widthing the result again (narrow then wide, wide then narrow, ...): each
+	// step truncates or zero-extends the value of the previous step.
+	chain, chainW := sw, []expr.Width{w}
+	for i, n := 0, rapid.IntRange(0, 2).Draw(t, "chain"); i < n; i++ {
+		w2 := irsem.GenWidth(t, irsem.GenCfg{}, "target2")
+		prev := chain
+		prevStr := irsem.String(prev)
+		if msg := catch(func() { chain = exprtransform.SetWidth(prev, w2) }); msg != "" {
+			t.Fatalf("SetWidth(%s, %d): %s", prevStr, w2, msg)
+		}
+		chainW = append(chainW, w2)
+		if chain.Width() != w2 {
+			t.Fatalf("SetWidth(%s, %d) has width %d", prevStr, w2, chain.Width())
+		}
+		for _, s := range seeds {
+			env := irsem.NewHashEnv(s)
+			want := irsem.Eval(e, env)
+			for _, cw := range chainW {
+				want = irsem.Fit(want, cw)
+			}
+			if got := irsem.Eval(chain, env); got.Cmp(want) != 0 {
+				t.Fatalf("re-widthing %s through widths %v gives %s which evaluates to %x, want %x (env seed %d)",
+					before, chainW, irsem.String(chain), got, want, s)
+			}
+		}
+		if irsem.String(prev) != prevStr || irsem.String(e) != before {
+			t.Fatalf("SetWidth modified its argument %s", prevStr)
+		}
+		col.Class("setwidth-chain")
 	}
 
 	// PurgeWidthGadgets
@@ -148,7 +182,7 @@ func TestC12(t *testing.T) {
 	runWitnesses(t, "C12")
 	colC12 = ev.New("C12", "rapid: expression trees (depth <= 4) with high width-gadget density (every generated "+
 		"sub-expression wrapped in 1-3 gadgets of random widths with probability 1/2, incl. gadgets directly under "+
-		"memory-load addresses, narrowing-then-widening chains and gadget look-alikes) x target widths 1..255; "+
+		"memory-load addresses, narrowing-then-widening chains and gadget look-alikes) x target widths 1..255 (and chains of up to 3 successive re-widthings; 1/8 bare constants); "+
 		"oracle = math/big evaluator: SetWidth(e,w) == fit(e,w); PurgeWidthGadgets(e) == e (value, width, every "+
 		"memory-load address at its own width, node count non-increasing). non-trivial = >=1 gadget removed and >=1 kept, or a gadget directly under a "+
 		"memory-load address; distinct by tree rendering")
